@@ -477,6 +477,34 @@ def mutations(e, rng, count):
     return out
 
 
+def member_damage(e):
+    """structured damage of a constructed encoding: one member dropped / repeated in place of another / repeated at the
+    end, lengths kept consistent (a record that is complete by count but not by content)"""
+    out = []
+    try:
+        cls, pc, num, lo, hi, nxt = x690.read_tlv(e, 0)
+        if not pc or nxt != len(e):
+            return out
+        kids = x690.children(e, lo, hi)
+    except Exception:
+        return out
+    if not 1 <= len(kids) <= 6:
+        return out
+    tlvs = [e[k[0]:k[6]] for k in kids]
+    head = bytes(x690.ident(cls, pc, num))
+
+    def rebuild(parts):
+        body = b''.join(parts)
+        return head + bytes(x690.length_def(len(body))) + body
+    for i in range(len(tlvs)):
+        out.append(rebuild(tlvs[:i] + tlvs[i + 1:]))                      # member i missing
+        out.append(rebuild(tlvs + [tlvs[i]]))                            # member i twice
+        for j in range(len(tlvs)):
+            if i != j:
+                out.append(rebuild([tlvs[i] if k == j else t for k, t in enumerate(tlvs)]))   # member i in place of member j
+    return out
+
+
 def chk_accepts_wellformed(T, v, M, rng, nmut=12):
     """C10: whatever a guided decoder returns is a complete, re-encodable value of the type"""
     be, bd, ce, cd, de, dd, error, bridge = M
@@ -487,6 +515,8 @@ def chk_accepts_wellformed(T, v, M, rng, nmut=12):
     except Exception:
         return [], 0
     inputs = mutations(e, rng, nmut)
+    if T['k'] in ('SEQUENCE', 'SET'):
+        inputs += member_damage(e)
     # the indefinite-length forms go through decoders of their own (the end-of-octets loops of the constructed types)
     try:
         inputs += mutations(be.encode(bridge.to_value(T, v, spec), defMode=False), rng, max(2, nmut // 3))
